@@ -34,11 +34,15 @@ PROPS = {
         "assumptions": [SC, SMR_ASSUME],
     },
     "C04": {
-        "harnesses": [{"name": "rcu", "quick": 480000, "thorough": 6000000, "fuzz_runs": 600000}],
+        "harnesses": [{"name": "rcu", "variants": [0, 1, 3], "quick": 300000, "thorough": 4000000, "fuzz_runs": 400000, "weight": 3},
+                      # general_threaded starts a real reclamation thread per case: much slower
+                      {"name": "rcu", "variants": [2], "quick": 24000, "thorough": 400000, "fuzz_runs": 40000, "weight": 1}],
         "assumptions": [SC, RCU_ASSUME],
     },
     "C05": {
-        "harnesses": [{"name": "rcu", "quick": 480000, "thorough": 6000000, "fuzz_runs": 600000}],
+        "harnesses": [{"name": "rcu", "variants": [0, 1, 3], "quick": 300000, "thorough": 4000000, "fuzz_runs": 400000, "weight": 3},
+                      # general_threaded starts a real reclamation thread per case: much slower
+                      {"name": "rcu", "variants": [2], "quick": 24000, "thorough": 400000, "fuzz_runs": 40000, "weight": 1}],
         "assumptions": [SC, RCU_ASSUME],
     },
     "C07": {
@@ -92,8 +96,10 @@ PROPS = {
     },
     "C17": {
         "harnesses": [{"name": "rehash", "variants": list(range(0, 9)) + list(range(13, 27)), "quick": 120000, "thorough": 1200000, "fuzz_runs": 0},
-                      {"name": "rehash_boost", "quick": 100000, "thorough": 1000000, "fuzz_runs": 0}],
-        "assumptions": ["Single thread, no scheduler: sequences of up to 120/200 operations over keys 0..63 with generated degenerate hash families (constant, k & m, k >> s, k << s, k * odd, identity); oracle: exact std::map differential after every step, full content compare every 4 steps, bucket-table probe. For Cuckoo tuples at least one member is injective (all-constant tuples make CuckooSet resize for ever: outside every real caller's domain).",
+                      {"name": "rehash_boost", "quick": 100000, "thorough": 1000000, "fuzz_runs": 0},
+                      {"name": "rehash_big", "quick": 160000, "thorough": 1600000, "fuzz_runs": 0}],
+        "assumptions": ["rehash_big: large initial capacities (1024..16384 buckets, default constructor) and runs of up to 128 consecutive keys out of 0..1023 so that multi-segment bucket tables, hundreds of initialised buckets and deep Feldman arrays are reached; std::set differential with a full re-check of every key ever used after each run.",
+                        "Single thread, no scheduler: sequences of up to 120/200 operations over keys 0..63 with generated degenerate hash families (constant, k & m, k >> s, k << s, k * odd, identity); oracle: exact std::map differential after every step, full content compare every 4 steps, bucket-table probe. For Cuckoo tuples at least one member is injective (all-constant tuples make CuckooSet resize for ever: outside every real caller's domain).",
                         "The four Cuckoo variants with low-entropy tuples (rehash variants 9-12) are excluded from the generated campaign: they reproduce the open finding cuckoo-resize-drops-element within a few thousand cases; its reproducers are replayed and reported as KNOWN-FINDING."],
     },
     "C18": {
